@@ -22,7 +22,8 @@ type ptok struct {
 	neg   bool
 	lo    []rune
 	hi    []rune
-	alpha bool // [:alpha:]
+	alpha bool     // [:alpha:]
+	cls   []string // other POSIX classes (ASCII, as in Go's regexp)
 }
 
 // parsePat parses shell pattern notation; ok=false for a malformed pattern
@@ -66,6 +67,11 @@ func parsePat(p []rune) (toks []ptok, ok bool) {
 					if j+8 < len(p) && string(p[j:j+9]) == "[:alpha:]" {
 						t.alpha = true
 						j += 9
+						continue
+					}
+					if name, n := posixClass(p[j:]); n > 0 {
+						t.cls = append(t.cls, name)
+						j += n
 						continue
 					}
 					return nil, false
@@ -113,6 +119,39 @@ func parsePat(p []rune) (toks []ptok, ok bool) {
 	return toks, true
 }
 
+// posixClass recognises [:name:] at the start of p for the ASCII classes.
+func posixClass(p []rune) (string, int) {
+	for _, name := range []string{"digit", "space", "upper", "lower", "alnum", "punct", "xdigit", "blank"} {
+		w := []rune("[:" + name + ":]")
+		if len(p) >= len(w) && string(p[:len(w)]) == string(w) {
+			return name, len(w)
+		}
+	}
+	return "", 0
+}
+
+func inPosixClass(name string, r rune) bool {
+	switch name {
+	case "digit":
+		return r >= '0' && r <= '9'
+	case "space":
+		return r == ' ' || r >= '\t' && r <= '\r'
+	case "upper":
+		return r >= 'A' && r <= 'Z'
+	case "lower":
+		return r >= 'a' && r <= 'z'
+	case "alnum":
+		return isAlpha(r) || r >= '0' && r <= '9'
+	case "punct":
+		return r >= '!' && r <= '/' || r >= ':' && r <= '@' || r >= '[' && r <= '`' || r >= '{' && r <= '~'
+	case "xdigit":
+		return r >= '0' && r <= '9' || r >= 'a' && r <= 'f' || r >= 'A' && r <= 'F'
+	case "blank":
+		return r == ' ' || r == '\t'
+	}
+	return false
+}
+
 func isAlpha(r rune) bool { return r >= 'a' && r <= 'z' || r >= 'A' && r <= 'Z' } // C locale
 
 func tokMatches(t ptok, r rune) bool {
@@ -130,6 +169,11 @@ func tokMatches(t ptok, r rune) bool {
 		}
 		if t.alpha && isAlpha(r) {
 			in = true
+		}
+		for _, c := range t.cls {
+			if inPosixClass(c, r) {
+				in = true
+			}
 		}
 		return in != t.neg
 	}
@@ -210,7 +254,10 @@ func symSubject(l int, multibyte bool) string {
 }
 
 func c12(k, l int, alpha string, multibyte bool) {
-	pat := choosePattern(k, alpha)
+	c12Pat(choosePattern(k, alpha), l, multibyte)
+}
+
+func c12Pat(pat []rune, l int, multibyte bool) {
 	subj := symSubject(l, multibyte)
 	mode := pattern.Mode(0)
 	prefix := nd.Choice(2) == 1
@@ -306,3 +353,23 @@ func C12_Two() {
 func C12_K5L2() { c12(5, 2, "[a*].", false) }
 
 func C12_K6L2() { c12(6, 2, "[a\\-c]", false) }
+
+// C12_Pieces*: patterns assembled from k multi-character pieces (character
+// classes, negated classes, classes mixed with ranges, * ? literals, escapes),
+// so that two bracket expressions with something translatable between them
+// occur in every order.
+var c12PiecesQuick = []string{"[[:alpha:]]", "[[:digit:]]", "[![:digit:]]", "[a[:digit:]-]", "*", "?", "a", "\\*"}
+var c12PiecesMore = []string{"[[:space:][:upper:]]", ".", "[a-c]", "1", "[!a]", "\\["}
+
+func c12Pieces(k, l int, pieces []string) {
+	text := ""
+	for i := 0; i < k; i++ {
+		text += pieces[nd.Choice(len(pieces))]
+	}
+	c12Pat([]rune(text), l, false)
+}
+
+func C12_Pieces3L2() { c12Pieces(3, 2, c12PiecesQuick) }
+func C12_Pieces3L3() { c12Pieces(3, 3, append(append([]string{}, c12PiecesQuick...), c12PiecesMore...)) }
+func C12_Pieces4L2() { c12Pieces(4, 2, c12PiecesQuick) }
+func C12_Pieces3L3q() { c12Pieces(3, 3, c12PiecesQuick) }
